@@ -512,8 +512,8 @@ def parse_authority(authority: bytes) -> list[Node]:
         )
     if not host:
         return out
-    if userinfo:
-        offset += 1  # for the @
+    if b"@" in authority:
+        offset = len(userinfo) + 1  # for the @
     host = unquote_to_bytes(host)
     if host.startswith(b"["):
         if not host.endswith(b"]"):
